@@ -97,6 +97,11 @@ def rule_shrink(ctx: Ctx, repo: Repo) -> None:
             n += 1
             if isinstance(res, U) or (isinstance(res, R) and res.kind == "raises"):
                 continue  # C04 reports it
+            if isinstance(res, R) and res.kind == "merged_td":
+                of = res.fields["of"]
+                ctx.check(isinstance(of, K) and sorted(map(repr, of.v)) == sorted(map(repr, perm)), "R-C05.4", w,
+                          "when dicts are merged into one TypedDict every observed dict takes part in the required/optional count (also an empty one)",
+                          construct=f"{_types(types)}: merged over {len(of.v) if isinstance(of, K) else '?'} of {len(perm)} observed dict types")
             ok, why = tight(res, perm)
             ctx.check(ok, "R-C05.3", w, "every alternative of the merged type is one of the observed types (or built from them)",
                       construct=f"{_types(types)} -> {_short(res)}: {why}")
